@@ -398,6 +398,81 @@ class HypervGates(MutantSuite):
                 f"hv_keytab_sigs := {zlist([k for _, k in ktabs])} |}}")
 
 
+class HypervChainGates(HypervGates):
+    """Generated Hyper-V files whose first object table lists further object tables (the format allows a chain; the samples do
+    not use it): every key table and object table reachable through the chain is behind the same signature gates."""
+    name = "hyperv_chain"
+
+    @staticmethod
+    def parse_chain(buf):
+        """independent walk over the chain of object tables -> (object-table signatures, key-table signatures with offsets)"""
+        osigs, ksigs, seen, todo = [], [], set(), [0x2000]
+        while todo and len(seen) < 64:
+            t = todo.pop(0)
+            if t in seen or t + 8 > len(buf):
+                continue
+            seen.add(t)
+            osig, n = struct.unpack_from("<II", buf, t)
+            osigs.append((t, osig))
+            if osig != 0x01110001:
+                continue
+            for i in range(min(n, 4096)):
+                o = t + 8 + 18 * i
+                if o + 18 > len(buf):
+                    break
+                typ, _, off, size, alloc = struct.unpack_from("<BIQIB", buf, o)
+                if not alloc:
+                    continue
+                if typ == 1:
+                    todo.append(off)
+                elif typ == 2 and off + 2 <= len(buf):
+                    ksigs.append((off, struct.unpack_from("<H", buf, off)[0]))
+        return osigs, ksigs
+
+    def generate(self, rng, tier):
+        from harness.props import c17
+        out = []
+        nb = 6 if tier == "thorough" else 2
+        tries = 0
+        while sum(1 for c in out if c["mut"] == ["none"]) < nb and tries < 3000:
+            tries += 1
+            hc = c17.gen_case(rng, "quick")
+            sf = c17.open_sparse(hc)
+            if hc["dims"]["n_otabs"] < 2 or hc["dims"]["high"] or sf.size > (1 << 20):
+                continue
+            buf = sf.content(0, sf.size)
+            osigs, ksigs = self.parse_chain(buf)
+            first_only = {off for off, _ in self.parse(buf)[5]}
+            chained = [(off, sg) for off, sg in ksigs if off not in first_only]
+            if len(osigs) < 2 or not chained:
+                continue
+            base = {"hex": buf.hex()}
+            out.append({"base": base, "mut": ["none"], "patch": [], "must_reject": False, "must_accept": True})
+            for (toff, _) in osigs[1:3]:
+                for i, m in (bitflips(4) if tier == "thorough" else [bitflips(4)[k] for k in sorted(rng.sample(range(32), 8))]):
+                    out.append({"base": base, "mut": ["bit", "chained_objtab_sig", toff, i, m], "patch": [[toff + i, m]],
+                                "must_reject": True})
+            for (koff, _) in chained[:3]:
+                for i, m in bitflips(2):
+                    out.append({"base": base, "mut": ["bit", "chained_keytab_sig", koff, i, m], "patch": [[koff + i, m]],
+                                "must_reject": True})
+        return out
+
+    def _bytes(self, case):
+        buf = bytearray(bytes.fromhex(case["base"]["hex"]))
+        for off, m in case["patch"]:
+            buf[off] ^= m
+        return bytes(buf)
+
+    def coq_term(self, case):
+        buf = self._bytes(case)
+        h1, h2, act, rsig, _, _ = self.parse(buf)
+        osigs, ksigs = self.parse_chain(buf)
+        return (f"hyperv_gate {{| hv1_seq := {h1[1]}; hv2_seq := {h2[1]}; hv1_sig := {h1[0]}; hv2_sig := {h2[0]}; "
+                f"hv1_ver := {h1[2]}; hv2_ver := {h2[2]}; hv_replay_sig := {rsig}; hv_objtab_sigs := {zlist([s for _, s in osigs])}; "
+                f"hv_keytab_sigs := {zlist([k for _, k in ksigs])} |}}")
+
+
 # ----------------------------------------------------------------------------- envelope / keystore / key safe / VMDK sparse header
 class EnvelopeGates(MutantSuite):
     name = "envelope"
@@ -668,5 +743,5 @@ class Qcow2Gates(MutantSuite):
                 f"q_backing_offset := {g('backing_file_offset')}; q_data_file_given := false; q_backing_given := false |}}")
 
 
-SUITES = {"qcow2": Qcow2Gates(), "vmdk_hosted": VmdkHostedGates(), "vhdx": VhdxGates(), "vdi": VdiGates(), "hds": HdsGates(), "hdd": HddGates(), "hyperv": HypervGates(),
+SUITES = {"qcow2": Qcow2Gates(), "vmdk_hosted": VmdkHostedGates(), "vhdx": VhdxGates(), "vdi": VdiGates(), "hds": HdsGates(), "hdd": HddGates(), "hyperv": HypervGates(), "hyperv_chain": HypervChainGates(),
           "envelope": EnvelopeGates(), "text": TextGates(), "vmdk_sparse": VmdkSparseGates()}
